@@ -82,8 +82,13 @@ def chain_task(task):
 def holder_cmd(bindir, holder, fmt):
     """-> (argv, line producer) for a tool that holds the day in `holder` when printing"""
     kind, rep = holder.split(":")
-    mk = c01.SOURCES[rep][0]
-    ia = c01.SOURCES[rep][1]
+    if rep == "bizda":
+        # a business-day date (weekend days are written as the Friday before, strf_task leaves them out)
+        from ..oracle import dur as _dur
+        mk, ia = (lambda d: _dur.bizda_text(d.o)), []
+    else:
+        mk = c01.SOURCES[rep][0]
+        ia = c01.SOURCES[rep][1]
     if kind == "dconv":
         return [str(bindir / "dconv")] + ia + ["-f", fmt], mk
     if kind == "dadd":
@@ -110,7 +115,8 @@ def holder_shift(holder, o):
 HOLDERS = ["dconv:ymd", "dconv:ywd", "dconv:yd", "dconv:ymcw", "dconv:ldn", "dconv:mdn",
            "dadd:ymd", "dadd:ywd", "dadd:yd", "dadd:ymcw", "dadd:ldn",
            "dadd7:ywd", "dadd7:ymcw", "dadd7:yd",
-           "droundMon:ymd", "droundMon:ywd", "droundMon:ymcw", "droundThu:ywd", "droundThu:yd"]
+           "droundMon:ymd", "droundMon:ywd", "droundMon:ymcw", "droundThu:ywd", "droundThu:yd",
+           "dconv:bizda", "dadd:bizda"]
 
 
 def strf_task(task):
@@ -119,6 +125,8 @@ def strf_task(task):
     sh = Shard()
     fmt = "|".join(specs)
     argv, mk = holder_cmd(bindir, holder, fmt)
+    if holder.endswith(":bizda"):
+        ords = [o for o in ords if (o - 1) % 7 < 5]
     days = [cal.Day(o) for o in ords]
     lines = [mk(d) for d in days]
     r = run(argv, stdin=("\n".join(lines) + "\n").encode(), cpu=120, wall=600)
